@@ -1302,6 +1302,8 @@ def ext_form(line):
         return "Extension::Extension"
     if k in ("eop", "eopa"):
         return "Extension::" + t[1]
+    if k == "erand":
+        return "Extension::RandIter"
     if k == "gext":
         return "GFqExtFast::GFqExtFast"
     if k in ("gop", "gopa"):
@@ -1614,6 +1616,10 @@ def ext_part(chk, rng, tier, dist, drv=None):
             L.append(("eop pred %d %d" % (el(), el()), "eop", "pred"))
             L.append(("eop initI %d" % rng.range(0, q - 1), "eop", "initI"))
             L.append(("eop initS %d" % rng.choice([0, 1, p - 1, p, p + 1, 2 * p + 3, rng.range(0, 2**40)]), "eop", "initS"))
+        # the field's random iterator built as every generic client builds one: RandIter(F, seed).  It must be seeded by that
+        # argument (same sequence from two iterators) and must not be a constant generator (seed 1 used to mean "sampling size 1")
+        for sd in (1, 2, 7):
+            L.append(("erand %d 40" % sd, "erand", sd))
         L.append(("eop initI 0", "eop", "initI"))
         L.append(("eop convzero %d" % rng.range(1, q - 1), "eop", "convzero"))
     # --- GFqExtFast / GFqExt
@@ -1819,6 +1825,16 @@ def ext_part(chk, rng, tier, dist, drv=None):
                 fb = (ctor == "pe" and ff_subexponent_max(p, k) >= k and " w=c" not in line and " w=h" not in line)
                 chk.fail_input("Extension::zero/one/mOne", "constants after the direct-field fallback of Extension(p,e)" if fb else "constants",
                                {"line": line}, ["0", "1", str(p - 1)], t[10:13])
+        elif kind == "erand":
+            if P is None:
+                continue
+            chk.count((ctx, line), nontrivial=False)
+            t = got.split()
+            if len(t) != 3 or t[1] != "0" or int(t[0]) >= 40:
+                chk.fail_input("Extension::RandIter(F, seed)", "constant or invalid draws", {"field": ctx, "line": line}, "40 valid draws, not all zero", got,
+                               "zero draws / invalid draws / same sequence from two iterators")
+            elif t[2] != "1":
+                chk.fail_input("Extension::RandIter(F, seed)", "not seeded by its second argument", {"field": ctx, "line": line}, "two iterators with the same seed give the same sequence", got)
         elif kind == "eop":
             if P is None:
                 continue
